@@ -46,4 +46,11 @@ theorem retired_forever {K k k'} (h : KSteps K k k') (i j : Nat)
     ∃ e, k'.deriveSessionKeys K i j = .error e := by
   first | exact Otr.retired_forever | exact @Otr.retired_forever | (apply Otr.retired_forever <;> assumption) | (intros; apply Otr.retired_forever <;> assumption)
 
+/-- repaired code: a rotation that cannot draw its new key changes nothing — no MAC key queued for
+    disclosure, no counter forgotten (before the repair the previous generation stayed valid while its
+    counters were forgotten and its MAC keys revealed: replay accepted after a randomness failure) -/
+theorem rotateOurKeys_fail_unchanged (K : Crypto) (k : Keys) (r : Nat) :
+    k.rotateOurKeys K r none = (k, if r = k.ourKeyID then some .shortRandom else none) :=
+  Otr.rotateOurKeys_fail_unchanged K k r
+
 end Otr.C05
